@@ -545,7 +545,7 @@ def c09(tier):
             kinds = dict(sc.get("kinds", {}))
             kinds.update(ans.kinds)              # (an answer served from the overrides has no kind recorded in this run)
             co = sorted(c for c in co if c != g and kinds.get(c) == "BooleanInput" and _strip_inst(c) not in gate_inputs and c in ans.given)
-            for c in co[:6]:
+            for c in co[:(2 if tier == "quick" else 6)]:
                 cur = str(ans.given[c]).strip().lower()
                 ov2 = dict(ov)
                 ov2[c] = "no" if cur in ("yes", "true", "y", "1") else "yes"
